@@ -205,17 +205,63 @@ def requestParts : Val → Except Err (Val × Val)
 inductive Node where
   | value (v : Val) | tuple (items : List Val) | localRef (key : Val) | remoteRef (idPack : Val)
 
-def unboxNode : Val → Except Err Node
-  | .tuple [.int label, value] =>
-    if label = (Gen.Consts.labelValue : Nat) then .ok (.value value)
-    else if label = (Gen.Consts.labelTuple : Nat) then
+/-- `label, value = package` -/
+def unpack2 : Val → Unpacked
+  | .tuple [a, b] => .three a b .none
+  | .tuple _ => .wrongLength
+  | .bytes [a, b] => .three (.int (a : Nat)) (.int (b : Nat)) .none
+  | .bytes _ => .wrongLength
+  | .str [a, b] => .three (.str [a]) (.str [b]) .none
+  | .str _ => .wrongLength
+  | .fset [_, _] => .unordered
+  | .fset _ => .wrongLength
+  | _ => .notIterable
+
+/-- one step of `_unbox` (labels compared with Python `==`); a `LABEL_TUPLE` whose payload is not a tuple is iterated
+by Python whatever it is — not modelled -/
+def unboxNode (v : Val) : Except Err Node :=
+  match unpack2 v with
+  | .three label value _ =>
+    if numEq label Gen.Consts.labelValue then .ok (.value value)
+    else if numEq label Gen.Consts.labelTuple then
       match value with
       | .tuple xs => .ok (.tuple xs)
       | _ => .error .notModelled
-    else if label = (Gen.Consts.labelLocalRef : Nat) then .ok (.localRef value)
-    else if label = (Gen.Consts.labelRemoteRef : Nat) then .ok (.remoteRef value)
+    else if numEq label Gen.Consts.labelLocalRef then .ok (.localRef value)
+    else if numEq label Gen.Consts.labelRemoteRef then .ok (.remoteRef value)
     else .error .valueError
-  | .tuple [_, _] => .error .notModelled
-  | _ => .error .valueError
+  | .wrongLength => .error .valueError
+  | .notIterable => .error .typeError
+  | .unordered => .error .notModelled
+
+/-- a plain value, described: `value`, or the tuple of its members' descriptions -/
+def describePlain : Nat → Val → String
+  | 0, _ => "value"
+  | fuel+1, .tuple xs => "(" ++ " ".intercalate (xs.map (describePlain fuel)) ++ ")"
+  | _+1, _ => "value"
+
+/-- `_unbox` of a whole boxed value, described: what each leaf becomes.  `locals k` = the description of
+`self._local_objects[k]` (`none`: KeyError); `proxies p` = the description of the proxy the reference resolves to
+(cache hit or a new proxy).  Fuel bounds the nesting (callers pass the size of the value). -/
+def unboxDescr (locals proxies : Val → Option String) : Nat → Val → Except Err String
+  | 0, _ => .error .recursionError
+  | fuel+1, v =>
+    match unboxNode v with
+    | .error e => .error e
+    | .ok (.value x) => .ok (describePlain (fuel+1) x)
+    | .ok (.localRef k) => match locals k with
+      | some d => .ok d
+      | none => .error .keyError
+    | .ok (.remoteRef p) => match proxies p with
+      | some d => .ok d
+      | none => .ok "new-proxy"
+    | .ok (.tuple xs) =>
+      match xs.mapM (unboxDescr locals proxies fuel) with
+      | .error e => .error e
+      | .ok ds => .ok ("(" ++ " ".intercalate ds ++ ")")
+
+def showDescr : Except Err String → String
+  | .ok d => d
+  | .error e => "err " ++ e.name
 
 end Rpyc.Spec.Code
